@@ -65,6 +65,38 @@ Definition lower_func (f : string) (ins : list string) : option Ev.func :=
   else if (f =? "int") && str_list_eqb ins ["Decimal"] then Some Ev.FIntOfDec
   else if (f =? "decimal") && str_list_eqb ins ["int"] then Some Ev.FDecOfInt
   else if (f =? "substr") && str_list_eqb ins ["str"; "int"; "int"] then Some Ev.FSubstr
+  (* the C18 library (Model/Dates.v, Model/StrFuncs.v through Eval.apply_func), by registered overload; the
+     overloads Typing.func_dom leaves untyped (they can raise) are named here too, the validation of
+     lower_query then refuses the statement *)
+  else if (f =? "year") && str_list_eqb ins ["date"] then Some Ev.FYear
+  else if (f =? "month") && str_list_eqb ins ["date"] then Some Ev.FMonth
+  else if (f =? "day") && str_list_eqb ins ["date"] then Some Ev.FDay
+  else if (f =? "yearmonth") && str_list_eqb ins ["date"] then Some Ev.FYearmonth
+  else if (f =? "quarter") && str_list_eqb ins ["date"] then Some Ev.FQuarter
+  else if (f =? "weekday") && str_list_eqb ins ["date"] then Some Ev.FWeekday
+  else if (f =? "date_add") && str_list_eqb ins ["date"; "int"] then Some Ev.FDateAdd
+  else if (f =? "date_diff") && str_list_eqb ins ["date"; "date"] then Some Ev.FDateDiff
+  else if (f =? "date_trunc") && str_list_eqb ins ["str"; "date"] then Some Ev.FDateTrunc
+  else if (f =? "date_part") && str_list_eqb ins ["str"; "date"] then Some Ev.FDatePart
+  else if (f =? "date_bin") && str_list_eqb ins ["str"; "date"; "date"] then Some Ev.FDateBin
+  else if (f =? "date") && str_list_eqb ins ["int"; "int"; "int"] then Some Ev.FDateYmd
+  else if (f =? "date") && (str_list_eqb ins ["date"] || str_list_eqb ins ["str"] || str_list_eqb ins ["object"])
+       then Some Ev.FDate
+  else if (f =? "str") && str_list_eqb ins ["any"] then Some Ev.FStr
+  else if (f =? "int") && (str_list_eqb ins ["int"] || str_list_eqb ins ["bool"] || str_list_eqb ins ["str"]
+                           || str_list_eqb ins ["object"]) then Some Ev.FInt
+  else if (f =? "decimal") && (str_list_eqb ins ["Decimal"] || str_list_eqb ins ["bool"] || str_list_eqb ins ["str"]
+                               || str_list_eqb ins ["object"]) then Some Ev.FDecimal
+  else if (f =? "splitcomp") && str_list_eqb ins ["str"; "str"; "int"] then Some Ev.FSplitcomp
+  else if (f =? "maxwidth") && str_list_eqb ins ["str"; "int"] then Some Ev.FMaxwidth
+  else if (f =? "root") && str_list_eqb ins ["str"; "int"] then Some Ev.FRoot
+  else if (f =? "root") && str_list_eqb ins ["str"] then Some Ev.FRoot1
+  else if (f =? "parent") && str_list_eqb ins ["str"] then Some Ev.FParent
+  else if (f =? "leaf") && str_list_eqb ins ["str"] then Some Ev.FLeaf
+  else if (f =? "round") && str_list_eqb ins ["int"; "int"] then Some Ev.FRoundInt
+  else if (f =? "round") && str_list_eqb ins ["int"] then Some Ev.FRoundInt1
+  else if (f =? "round") && str_list_eqb ins ["Decimal"; "int"] then Some Ev.FRoundDec
+  else if (f =? "round") && str_list_eqb ins ["Decimal"] then Some Ev.FRoundDec1
   else None.
 
 Definition is_operator (name : string) : bool :=
